@@ -237,6 +237,11 @@ class TTElement(TTMLElement):
 
     has_px = False
 
+    for model_style_prop, initial_value in model_doc.iter_initial_values():
+      if StyleProperties.BY_MODEL_PROP[model_style_prop].has_px(initial_value):
+        has_px = True
+        break
+
     all_elements = list(model_doc.iter_regions())
 
     if model_doc.get_body() is not None:
